@@ -1,7 +1,8 @@
-/- Driver ops for Maze.  Ops: maze.step, maze.state, maze.judge, maze.instance -/
+/- Driver ops for Maze.  Ops: maze.step, maze.state, maze.judge, maze.instance, maze.bounds -/
 import JumanjiModel.Bridge.Json
 import JumanjiModel.Env.Maze.Model
 import JumanjiModel.Env.Maze.MazeGen
+import JumanjiModel.Env.Maze.Bounds
 open Lean Jb
 
 namespace Jb.Maze
@@ -84,6 +85,12 @@ def opInstance : Op := fun j => do
                 ("recursive_division", jBool (MazeGen.isRecursiveDivisionMaze m nr nc))]
               else [])))
 
+/-- {cfg} → {leaf path: {"lo": rat|null, "hi": rat|null}}: the proved value bounds `obsBounds cfg` (C01) -/
+def opBounds : Op := fun j => do
+  let cfg ← getCfg (← field j "cfg")
+  let jo : Option Rat → Json := fun o => match o with | none => .null | some r => jRat r
+  pure (jObj ((obsBounds cfg).map (fun (k, lo, hi) => (k, jObj [("lo", jo lo), ("hi", jo hi)]))))
+
 def ops : List (String × Op) :=
-  [("maze.step", opStep), ("maze.state", opState), ("maze.judge", opJudge), ("maze.instance", opInstance)]
+  [("maze.bounds", opBounds), ("maze.step", opStep), ("maze.state", opState), ("maze.judge", opJudge), ("maze.instance", opInstance)]
 end Jb.Maze
